@@ -30,6 +30,8 @@ CONSTANTS S,            \* sector size in bytes
           Mode,         \* "exhaustive" | "classes"
           MaxParts, MaxVols, MaxFiles, MaxChain,
           Rates,        \* set of stored sample rates
+          Inverted,     \* "classes" mode: TRUE = within a volume every file is allocated physically IN FRONT of the files
+                        \* listed before it (directory order is the reverse of allocation order)
           EmitCases
 
 VARIABLES img, done, goal      \* goal: the shape (partitions, volumes per partition, files per volume) being built
@@ -72,6 +74,11 @@ ChainCandidates(part, n) ==
   IF Mode = "exhaustive" THEN InjSeqs(free, n)
   ELSE IF Cardinality(free) < n + 2 THEN {}
   ELSE {[k \in 1..n |-> Kth(free, p[k])] : p \in Patterns(n)}
+\* the same classes shifted up the sorted free list by `off` entries (room is left below for the files that follow)
+ChainCandidatesOff(part, n, off) ==
+  LET free == FreeOf(part) IN
+  IF Cardinality(free) < n + 2 + off THEN {}
+  ELSE {[k \in 1..n |-> Kth(free, p[k] + off)] : p \in Patterns(n)}
 
 \* a run-style directory: consecutive sectors above everything used, separated from another
 \* reserved run by at least one non-reserved sector (the property defines a directory area as a RUN)
@@ -169,7 +176,10 @@ AddFile(name, ftype, ch, cnt, ps, pe, rate, pair) ==
 NewFile ==
   /\ ~done /\ CurP > 0 /\ CurV > 0 /\ Len(CurPart.vols[CurV].files) < goal.files
   /\ \E n \in 1..MaxChain, ftype \in (IF Mode = "exhaustive" THEN {243} ELSE {115, 243}), rate \in Rates :
-       \E ch \in ChainCandidates(CurPart, n) :
+       \E ch \in (IF Inverted /\ Mode = "classes"
+                  THEN {c \in ChainCandidatesOff(CurPart, n, MaxChain * (goal.files - Len(CurPart.vols[CurV].files) - 1)) :
+                          \A f \in 1..Len(CurPart.vols[CurV].files) : \A x \in RangeOf(c), y \in RangeOf(CurPart.vols[CurV].files[f].chain) : x < y}
+                  ELSE ChainCandidates(CurPart, n)) :
           LET cap == (n * S - H) \div 2 IN
           \E cnt \in WordChoices(cap) : \E m \in MarkerChoices(cnt) :
              AddFile(FileNames[Len(CurPart.vols[CurV].files) + 1], ftype, ch, cnt, m[1], m[2], rate, "")
